@@ -237,6 +237,23 @@ def run(pid, tier, seed, replay, mode):
     def stream():
         for i in range(ncirc):
             yield gen_circuit(rs, i, tier), False
+        # Chow-Liu leaves whose scope is a block of ADJACENT variable ids listed in a non-ascending order (e.g. [2, 0, 1]), alone
+        # under a product and as components of a mixture: columns must reach the leaf in the order of its scope list
+        from deeprob.spn.structure.node import Sum as _Sum0, Product as _Prod0, assign_ids as _aid0
+        from deeprob.spn.structure.leaf import Bernoulli as _Be0
+        for _ in range(3 if tier == "quick" else 20):
+            nv = int(rs.randint(2, 5)); lo = int(rs.randint(0, 3))
+            def perm_block():
+                while True:
+                    sc_ = [lo + int(v) for v in rs.permutation(nv)]
+                    if sc_ != sorted(sc_):
+                        return sc_
+            k_ = int(rs.randint(1, 3))
+            leaves_ = [G.rand_clt(rs, perm_block(), permute=False) for _ in range(k_)]
+            inner_ = leaves_[0] if k_ == 1 else _Sum0(children=leaves_, weights=np.array(G.dyadic_weights(rs, k_), dtype=np.float32))
+            r0_ = _Prod0(children=[_Be0(lo + nv, float(rs.randint(1, 16) / 16.0)), inner_] if rs.rand() < 0.5 else [inner_, _Be0(lo + nv, float(rs.randint(1, 16) / 16.0))])
+            _aid0(r0_)
+            yield r0_, False
         if mode == "marg":
             # wide Chow-Liu trees (16-22 variables) as leaves of a small mixture: many NaN rows of one batch differ only in a few
             # positions, and 3^16 exceeds what single precision can count
